@@ -43,15 +43,50 @@ func applyRemoveVal(skel *Skeleton, orig []byte, op Op, path *Path) error {
 	if cur.Target.Kind != KindArray {
 		return fmt.Errorf("%w: REMOVE_VAL target is not an array", ErrTypeMismatch)
 	}
+	want := canonicalValue(op.Value)
 	for i, item := range cur.Target.ArrayItems {
-		if item.Kind != KindLeaf {
-			continue
+		have, err := elementBytes(item, orig)
+		if err != nil {
+			return err
 		}
-		raw := leafBytes(item, orig)
-		if bytes.Equal(raw, op.Value) {
+		if bytes.Equal(have, want) {
 			cur.Target.ArrayItems = append(cur.Target.ArrayItems[:i], cur.Target.ArrayItems[i+1:]...)
 			return nil
 		}
 	}
 	return nil
+}
+
+// elementBytes returns the msgpack encoding of an array element as REMOVE_VAL
+// compares it: a scalar leaf is its own bytes; a map / array element (parsed
+// from the blob, or spliced in earlier in the same patch) is serialised and
+// brought to the canonical header widths.
+func elementBytes(item *Skeleton, orig []byte) ([]byte, error) {
+	if item.Kind == KindLeaf {
+		return canonicalValue(leafBytes(item, orig)), nil
+	}
+	raw, err := item.Serialize(orig)
+	if err != nil {
+		return nil, err
+	}
+	return canonicalValue(raw), nil
+}
+
+// canonicalValue re-encodes a map / array value with the headers Serialize
+// emits (the smallest ones), so that two encodings of the same container
+// compare equal. Scalars keep their exact bytes (REMOVE_VAL is type-exact:
+// int8 5 does not match uint8 5), and so does anything Parse rejects.
+func canonicalValue(raw []byte) []byte {
+	if len(raw) == 0 || !(isMapCode(raw[0]) || isArrayCode(raw[0])) {
+		return raw
+	}
+	skel, err := Parse(raw)
+	if err != nil {
+		return raw
+	}
+	out, err := skel.Serialize(raw)
+	if err != nil {
+		return raw
+	}
+	return out
 }
